@@ -89,6 +89,12 @@ def target_spec(name):
         units.append((f"{S}/seq/seq_main.cpp", "main.o", fl))
         units += [(f"{REPO}/{f}", f.replace(".cpp", ".o"), fl) for f in REPO_LIB]
         return "g++", units, SAN + ["-pthread"], ["seq"]
+    if name == "fuzz_seq":
+        fl = BASE + HOOKS + STATS + ["-O1", "-fsanitize=fuzzer-no-link,address,undefined", "-fno-sanitize-recover=undefined"]
+        units = [(f"{S}/seq/seq_cfg.cpp", f"cfg{i}.o", fl + [f"-DSEQ_CFG={i}"]) for i in range(6)]
+        units.append((f"{S}/seq/seq_fuzz.cpp", "fuzz.o", fl))
+        units += [(f"{REPO}/{f}", f.replace(".cpp", ".o"), fl) for f in REPO_LIB]
+        return "clang++", units, ["-fsanitize=fuzzer,address,undefined", "-pthread"], ["seq"]
     if name in ("enc_fast", "enc_san"):
         fl = BASE + HOOKS + (["-O2"] if name == "enc_fast" else SAN + ["-O1"])
         units = [(f"{S}/enc/enc_main.cpp", "enc_main.o", fl), (f"{REPO}/art_internal.cpp", "art_internal.o", fl)]
@@ -369,6 +375,59 @@ def seq_replays(pid, exe, res):
     return n
 
 
+def fuzz_seq_campaign(pid, tier, seed, seq_exe, outdir, res):
+    """Second engine: coverage-guided libFuzzer over byte-coded histories with the same runner and
+    oracles. Returns a dict for evidence."""
+    fz = build("fuzz_seq")
+    jobs = 4 if tier == "quick" else NCPU
+    fdir = os.path.join(outdir, "fuzz")
+    os.makedirs(fdir)
+    cmds = []
+    for j in range(jobs):
+        cdir = os.path.join(fdir, f"corpus{j}")
+        os.makedirs(cdir)
+        lim = ["-runs=12000"] if tier == "quick" else ["-max_total_time=900"]
+        cmds.append([fz, cdir, f"-seed={seed * 100 + j + 1}", "-max_len=700", "-print_final_stats=1",
+                     f"-artifact_prefix={fdir}/art{j}_"] + lim)
+    env = dict(os.environ, VERIF_FUZZ_PROP=pid, VERIF_FUZZ_OUT=fdir, ASAN_OPTIONS="detect_leaks=0")
+    execs = 0
+    units = 0
+    for c, rc, out, err in run_parallel(cmds, timeout=3 * 3600, env=env):
+        for l in err.splitlines():
+            if l.startswith("stat::number_of_executed_units:"):
+                execs += int(l.split()[-1])
+            if l.startswith("stat::new_units_added:"):
+                units += int(l.split()[-1])
+        if rc == "timeout":
+            res.inconclusive.append("libFuzzer job hit the wall-clock budget")
+    faildir = os.path.join(FOUND, pid, "found")
+    cases = sorted(glob.glob(os.path.join(fdir, "fuzz_fail_*.txt")))
+    # crashes inside the target (assertion, sanitizer): decode the raw artifact back into a text case
+    for art in sorted(glob.glob(os.path.join(fdir, "art*_crash-*")) + glob.glob(os.path.join(fdir, "art*_leak-*"))):
+        subprocess.run([fz, art], capture_output=True, env=dict(env, VERIF_FUZZ_DUMP="1"), timeout=600)
+        lc = os.path.join(fdir, "last_case.txt")
+        if os.path.exists(lc):
+            dst = art + ".txt"
+            shutil.move(lc, dst)
+            cases.append(dst)
+    # (slow-unit / timeout / oom artifacts are load noise: ignored)
+    seen = 0
+    for case in cases[:6]:
+        p = subprocess.run([seq_exe, "--prop", pid, "--shrink", case], capture_output=True, text=True, timeout=3600)
+        if p.returncode == 1 and os.path.exists(case + ".shrunk"):
+            if confirm_replay(seq_exe, ["--prop", pid], case + ".shrunk"):
+                os.makedirs(faildir, exist_ok=True)
+                dst = os.path.join(faildir, f"{pid}_libfuzzer_{seen}.txt")
+                shutil.copy(case + ".shrunk", dst)
+                res.violations.append((dst, p.stdout.strip()[-300:]))
+                seen += 1
+        elif p.returncode == 0:
+            res.inconclusive.append(f"libFuzzer artifact does not fail in the generated-history harness: {case}")
+    return {"engine": "libFuzzer (clang -fsanitize=fuzzer,address,undefined), structure-aware decode of bytes into "
+                      "(configuration, universe seed, operation stream, scan queries); oracle inside the target",
+            "jobs": jobs, "executions": execs, "corpus_units_added": units, "artifacts_examined": len(cases)}
+
+
 def check_seq(pid, tier, seed):
     t0 = time.time()
     exe = build("seq")
@@ -443,6 +502,9 @@ def check_seq(pid, tier, seed):
                     f.write(f"# engine: qsbr_fault\n# process died rc={rc}: {' '.join(c)}\n# {err[-1500:]}\n")
                 res.violations.append((dst, f"qsbr_fault crashed rc={rc}: {err[-300:]}"))
         stat_files += [os.path.join(outdir, f"qstats{i}.json") for i in range(NCPU)]
+    fuzz = None
+    if pid in ("C01", "C02", "C10"):
+        fuzz = fuzz_seq_campaign(pid, tier, seed, exe, outdir, res)
     conc = None
     if pid == "C10":
         # concurrent part: olc_db after drained concurrent phases under the deterministic scheduler
@@ -484,6 +546,8 @@ def check_seq(pid, tier, seed):
         cov["scans"] = {k[6:]: v for k, v in counters.items() if k.startswith("scans.")}
         cov["bounds_rejected_as_not_prefix_free"] = counters.get("bound_rejected_not_prefix_free", 0)
         cov["scans_skipped_precondition"] = counters.get("scan_skipped_precondition", 0)
+    if fuzz is not None:
+        cov["second_engine_libfuzzer"] = fuzz
     if pid == "C10":
         cov["histories_revisiting_a_key_set"] = counters.get("cases_revisiting_a_key_set", 0)
         if conc is not None:
@@ -1291,7 +1355,7 @@ def main():
     a = ap.parse_args()
     os.makedirs(WORK, exist_ok=True)
     if a.build_all:
-        for t in ["seq", "enc_fast", "enc_san", "lock", "qsbr", "olc", "olc_nd", "qsbr_fault", "qp_dbg", "qp_ndbg", "mx"] + [f"cfgx_{i}" for i in range(16)]:
+        for t in ["seq", "fuzz_seq", "enc_fast", "enc_san", "lock", "qsbr", "olc", "olc_nd", "qsbr_fault", "qp_dbg", "qp_ndbg", "mx"] + [f"cfgx_{i}" for i in range(16)]:
             build(t)
         return 0
     seed = a.seed if a.seed is not None else int(os.environ.get("VERIF_SEED", "1") or 1)
